@@ -1,0 +1,54 @@
+//go:build verif
+
+package autofile
+
+// Contracts for the deductive checks in /verif (read by /verif/govc; comment-only, no code).
+
+//@ import os os
+//@ import bufio bufio
+//@ import log github.com/tendermint/tendermint/libs/log
+
+// ---- C15: the file group under the consensus WAL. The file system is ASSUMED (os calls are externs); what is proved is
+// which calls are made, in which order, on which paths.
+// bufFlushed: the head's write buffer has been flushed since the last write into it; headSynced: the head file has been
+// fsynced since that flush.
+//@ ghost var bufFlushed bool
+//@ ghost var headSynced bool
+//@ extern bufio.Writer.Flush
+//@   assigns bufFlushed, headSynced
+//@   sets bufFlushed = (result == nil) when true
+//@   sets headSynced = false when true
+//@ func AutoFile.Sync
+//@   trusted
+//@   assigns headSynced
+//@   sets headSynced = (result == nil && bufFlushed) when true
+//@ func AutoFile.closeFile
+//@   trusted
+//@   assigns nothing
+// (os.Rename / os.Remove / os.Stat: no contract here - libs/tempfile declares the file-system typestate for them.)
+//@ extern log.Logger.Error
+//@   assigns nothing
+//@ func filePathForIndex
+//@   trusted
+//@   purefn
+//@   assigns nothing
+//@ func Group.readGroupInfo
+//@   trusted
+//@   assigns nothing
+//@   ensures order: result.MinIndex <= result.MaxIndex
+
+// Flush-and-sync reports success only when the buffer was flushed and the head file then fsynced.
+//@ func Group.FlushAndSync
+//@   assigns bufFlushed, headSynced, g.mtx
+//@   ensures durable: result == nil ==> (bufFlushed && headSynced)
+
+// Rotation renames the head only after its buffer was flushed and the file fsynced, to the path of the current maximum
+// index, and then advances that index by one.
+//@ func Group.RotateFile
+//@   atcall os.Rename durable: bufFlushed && headSynced && arg0 == g.Head.Path && arg1 == filePathForIndex(g.Head.Path, g.maxIndex, g.maxIndex + 1)
+//@   ensures next: g.maxIndex == old(g.maxIndex) + 1
+
+// The total size limit discards only whole files, oldest first, and never the head (the file with the maximum index).
+//@ func Group.checkTotalSizeLimit
+//@   atcall os.Remove oldest: gInfo.MinIndex <= index && index < gInfo.MaxIndex && index == gInfo.MinIndex + i && arg0 == filePathForIndex(g.Head.Path, index, gInfo.MaxIndex)
+//@   loop 1 invariant idx: 0 <= i && gInfo.MinIndex + i <= gInfo.MaxIndex
